@@ -203,6 +203,12 @@ mod dictionary {
                 self.bytes += 1;
                 output.push([*b].as_slice())
             } else {
+                // A literal is stored verbatim and decoded by its first byte; it cannot be represented
+                // if that byte is the tag of a dictionary entry.
+                assert!(
+                    bytes.is_empty() || self.decode.get(bytes[0].into()).is_none(),
+                    "literal starts with a byte that is assigned as a dictionary tag"
+                );
                 self.bytes += bytes.len();
                 output.push(bytes)
             };
